@@ -1,15 +1,19 @@
 """C08 -- joins output exactly the relational join, whatever the arrival order."""
 from props.joins import *      # noqa
+from props.plan import join_plan_harness, join_plan_tasks      # noqa
 
 META = {
     'explanation': 'Joins: the real JoinLocalHash and JoinLocalSortMerge (inner / left / outer) are driven over every '
                    'interleaving of the two sides (LeftEnd / RightEnd at every position) with symbolic keys; the '
                    'output of each iteration is compared, as a multiset, with the nested-loop relational join padded '
-                   'with None; the operators\' own FlushAndRestart assertions must not fire.',
+                   'with None; the operators\' own FlushAndRestart assertions must not fire. The join builder chains (join / left_join / '
+                   'outer_join and ship x local x variant combinations) are executed from MIR into a logical plan that is evaluated over '
+                   'items spread over the replicas (props/plan.py): ship strategy, local algorithm and variant as the builder wires them.',
     'assumptions': ['both inputs of the block are routed by the same hash (C03)', 'keyer functions are pure'],
     'trusted': ['mirsym MIR executor and its std model table', 'z3 / cvc5'],
 }
 
 
 def TASKS(tier):
-    return join_tasks(tier, 'join') + interval_join_tasks(tier, 'interval_join')
+    return join_tasks(tier, 'join') + interval_join_tasks(tier, 'interval_join') + \
+        join_plan_tasks(tier, 'join_plan')
